@@ -19,6 +19,7 @@ func checkC14(c *Ctx) {
 	c14Entry(c, prog)
 	c13TaggedHash(c, prog, "C14-1t")
 	c13Invariant(c, prog, "C14-4")
+	c18KeyMethods(c, prog, "C14-4")
 	c.R.Explanation = "signSchnorr is abstractly interpreted with a symbolic key (d, px), 32 bytes of auxiliary randomness and a message of symbolic length; the returned bytes are compared, as terms over SHA-256 transcripts, scalar-ring operations and point-module operations, with the BIP-340 Sign algorithm: t = bytes(d) xor H_aux(a); rand = H_nonce(t || px || m); k' = int(rand) mod n (error if 0); R = k'G; k = k' or -k' by the parity of y(R); e = int(H_challenge(Bytes(x(R)) || px || m)) mod n; sig = Bytes(x(R)) || Bytes(k + e*d). The signature is returned only if the mandatory self-check succeeds; the self-check is the BIP-340 verification predicate with R = (s - e*d)G. Sign(rand, msg) reads exactly 32 bytes with io.ReadFull (nil -> crypto/rand.Reader), aborts on a read error and passes them as aux. Key derivation from an ECDSA key / a point establishes d*G = even-y point, xBytes = its x (same rule as C13-4); the tagged hash and tag constants are the BIP's."
 	c.R.Assumptions = []string{"byte-exactness is decided relative to the abstract operations (SHA-256, ScalarBaseMult = k*G, scalar ring): C01, C02, C05, C06", "C13 (verification predicate)"}
 }
